@@ -184,17 +184,17 @@ theorem pColType_ok (t : ColType) (ht : typeOK d t = true) (r : List Tok) (hr : 
     simp only [toksType, toksParams, hd, Bool.false_eq_true, if_false, pColType]
     kw_simp
     rw [splitBy_sepAll _ hsg]
-    have hall : ∀ e ∈ ps, pCompute d f (toksE d noX e) = .ok (e, []) := by
+    have hall : ∀ e ∈ ps, pCompute d f ((fun e => W d noX e 8) e) = .ok (e, []) := by
       intro e he
       have hpe := List.all_eq_true.1 hp e he
-      simp only [paramOK, Bool.and_eq_true, decide_eq_true_eq] at hpe
-      have hsz : sizeL (toksE d noX e) ≤ sizeL (toksType d ⟨name, some ps⟩) := by
+      simp only [paramOK] at hpe
+      have hsz : sizeL (W d noX e 8) ≤ sizeL (toksType d ⟨name, some ps⟩) := by
         simp only [toksType, toksParams, hd, Bool.false_eq_true, if_false, sizeL_cons, size_grp, sizeL]
-        have := sizeL_sepAll_le (ps.map (toksE d noX)) (toksE d noX e) (List.mem_map.2 ⟨e, he, rfl⟩)
+        have := sizeL_sepAll_le (ps.map fun e => W d noX e 8) (W d noX e 8) (List.mem_map.2 ⟨e, he, rfl⟩)
         omega
-      have := C02.tparse_compute d noX e hpe.1 hpe.2 [] rfl f (by omega)
+      have := key8 e hpe [] rfl f (by omega)
       simpa using this
-    rw [eachClosed_id (pCompute d f) (toksE d noX) ps hall]
+    rw [eachClosed_id (pCompute d f) (fun e => W d noX e 8) ps hall]
 
 /-! ### the attribute loop -/
 /-- the attribute loop succeeds with `res` at every fuel from `N` on -/
